@@ -405,11 +405,27 @@ LONG_SHAPES = [({0: 1, 1: -1}, {0: 1}), ({0: 1}, {0: 1, 1: F(-1, 2)}), ({0: 2, 3
                ({0: 1, 25: -1}, {0: 1}), ({0: 1}, {0: 1, 17: F(1, 2)}), ({5: 1, 6: 1}, {0: -1, 1: F(1, 4), 2: F(1, 8)})]
 
 
+def dense_shape(nb, na):
+  """nb numerator taps and na feedback taps, all non-zero, small integer / dyadic coefficients."""
+  b = {k: ((k * 7) % 5) - 2 or 3 for k in range(nb)}
+  a = {0: 1}
+  a.update({k: F(((k * 3) % 7) - 3 or 2, 2 ** (6 + k % 3) * 64) for k in range(1, na + 1)})   # dyadic: exact as pasted text
+  return b, a
+
+
+# many terms: 31/32/33 ... around every multiple of 32, and 1500-term sums
+for _nb, _na in ((31, 0), (32, 0), (33, 0), (63, 0), (64, 0), (65, 0), (96, 0), (128, 0), (129, 0), (16, 16), (32, 32),
+                 (40, 24), (1, 63), (1, 64), (200, 0)):
+  LONG_SHAPES.append(dense_shape(_nb, _na))
+
+
 def gen_long(run):
   for i in range(len(LONG_SHAPES)):
     for L in (run.pick(300, 1500), 64, 65, 128, 129):
       for xk in ("list", "generator", "stream"):
-        yield (i, L, xk)
+        if i >= 6 and (L not in (129, 300, 1500) or xk != "list"):
+          continue          # the many-term shapes: two lengths, one input kind
+        yield (i, L if i < 6 else min(L, 300), xk)
 
 
 def run_long(case):
